@@ -307,13 +307,11 @@ def c09_cross_process(tier, seed):
     for flavour in ("dbg", "plain", "avx2"):
         exe = D.build(flavour)
 
-        def wrap(cmd):
-            return cmd + ["--portable"]
         r = D.run_workers(exe, "C09", seed, n_native, max(200, n_native // (D.NCPU * 2)), want_hashes=True,
-                          wrapper=wrap)
+                          extra_args=["--portable"])
         D.cleanup_outs(r)
         if r.violation is not None:
-            mn, text = D.handle_violation_portable(exe, "C09", seed, r.violation)
+            mn, text = D.handle_violation(exe, "C09", seed, r.violation)
             return {"violation": {"replay": mn, "text": "[flavour %s] %s" % (flavour, text)}, "coverage": cov}
         cov["cross_process"].append({"configuration": "native x86_64 " + flavour, "families": r.families,
                                      "operations": r.stats.get("ops", 0),
